@@ -38,6 +38,7 @@ type scen struct {
 	calls     map[string]*pendingCall
 	dirty     bool
 	chmodT    map[string]bool
+	unpriv    bool // files without the owner-read bit cannot be opened by the backend (step "unpriv")
 	stretch    bool // inside a stretch: file system operations are collected, not logged one by one
 	stretchOps []J
 	ws        map[string]*struct{} // unused (shape compatibility with the shared helpers)
@@ -107,6 +108,7 @@ func runScenario(sc Scenario, out *bufio.Writer, tmp string) (bool, error) {
 		f.Close()
 	}
 	sim.SimHoldReset()
+	sim.SimUnprivileged(false)
 	if s.W != nil {
 		done := make(chan struct{})
 		go func() { s.W.Close(); close(done) }()
@@ -279,6 +281,11 @@ func (s *scen) exec(st *Step) {
 			}
 			s.emit(J{"k": "kmodel", "nfd": st.Model.NFd, "npath": st.Model.NPath, "nbyuser": st.Model.NByUser, "nseen": st.Model.NSeen, "wl": wl})
 		}
+	case "unpriv":
+		// from now on a file without the owner-read bit cannot be opened by the backend (as for an unprivileged user)
+		sim.SimUnprivileged(st.N != 0)
+		s.unpriv = st.N != 0
+		s.emit(J{"k": "unpriv", "on": st.N != 0})
 	case "kfault": // fault injection: the n-th registration of a new knote fails (kevent: ENOMEM)
 		sim.SimFailAdd(st.N)
 		s.emit(J{"k": "kfault", "n": st.N})
@@ -430,6 +437,17 @@ func (s *scen) doFs(st *Step) (ret, kind string, notes []note) {
 		if err == nil {
 			s.raise(v, vok, sim.NOTE_ATTRIB, &notes)
 		}
+	case "unreadable", "readable": // chmod 0200 / 0644: whether the owner could open the file (see the "unpriv" step)
+		kind = kindOf(p, true)
+		v, vok := sim.SimVnodeOf(p, true)
+		mode := os.FileMode(0o644)
+		if st.Op == "unreadable" {
+			mode = 0o200
+		}
+		err = os.Chmod(p, mode)
+		if err == nil {
+			s.raise(v, vok, sim.NOTE_ATTRIB, &notes)
+		}
 	case "unlink":
 		kind = kindOf(p, false)
 		v, vok := sim.SimVnodeOf(p, false)
@@ -446,13 +464,17 @@ func (s *scen) doFs(st *Step) (ret, kind string, notes []note) {
 			s.raise(dv, dok, sim.NOTE_WRITE|sim.NOTE_LINK, &notes)
 			s.raise(v, vok, sim.NOTE_DELETE, &notes)
 		}
-	case "rename":
+	case "rename", "rename2": // rename2: rename(2) itself (os.Rename refuses to replace a directory, the system call replaces an empty one)
 		kind = kindOf(p, false)
 		to := s.fsPath(st.To)
 		v, vok := sim.SimVnodeOf(p, false)
 		tv, tok := sim.SimVnodeOf(to, false)
 		tdv, tdok := sim.SimVnodeOf(filepath.Dir(to), true)
-		err = os.Rename(p, to)
+		if st.Op == "rename2" {
+			err = syscall.Rename(p, to)
+		} else {
+			err = os.Rename(p, to)
+		}
 		if err == nil {
 			s.raise(dv, dok, sim.NOTE_WRITE, &notes)
 			if tdok && tdv != dv {
@@ -611,7 +633,11 @@ func (s *scen) stepCall(st *Step) {
 			ents := []J{}
 			des, _ := os.ReadDir(tgt)
 			for _, d := range des {
-				ents = append(ents, J{"n": s.names.tok(d.Name()), "kind": kindOf(filepath.Join(tgt, d.Name()), false), "tkind": kindOf(filepath.Join(tgt, d.Name()), true)})
+				unr := false
+				if fi, err := os.Stat(filepath.Join(tgt, d.Name())); err == nil && s.unpriv && fi.Mode().Perm()&0o400 == 0 {
+					unr = true // the backend will not be able to open it (simulated unprivileged owner)
+				}
+				ents = append(ents, J{"n": s.names.tok(d.Name()), "kind": kindOf(filepath.Join(tgt, d.Name()), false), "tkind": kindOf(filepath.Join(tgt, d.Name()), true), "unreadable": unr})
 			}
 			line["entries"] = ents
 		}
